@@ -240,14 +240,16 @@ pub fn run(keys: &serde_json::Map<String, Value>, deco: &[Value], time_classes: 
     for t in typed {
         let ctor = t["ctor"].as_str().unwrap();
         let key = t["key"].as_str().unwrap();
+        // a constructor that refuses this plain RFC 3339 date-time is itself a violation (not a harness failure)
+        let tv = |r: Result<Value, String>| -> Value { r.unwrap_or_else(|e| json!({"constructor-error": e})) };
         let v: Value = match ctor {
             "IssuerClaim" => serde_json::to_value(IssuerClaim::from("x")).unwrap(),
             "SubjectClaim" => serde_json::to_value(SubjectClaim::from("x")).unwrap(),
             "AudienceClaim" => serde_json::to_value(AudienceClaim::from("x")).unwrap(),
             "TokenIdentifierClaim" => serde_json::to_value(TokenIdentifierClaim::from("x")).unwrap(),
-            "ExpirationClaim" => serde_json::to_value(ExpirationClaim::try_from("2030-01-01T00:00:00Z").unwrap()).unwrap(),
-            "NotBeforeClaim" => serde_json::to_value(NotBeforeClaim::try_from("2030-01-01T00:00:00Z").unwrap()).unwrap(),
-            _ => serde_json::to_value(IssuedAtClaim::try_from("2030-01-01T00:00:00Z").unwrap()).unwrap(),
+            "ExpirationClaim" => tv(ExpirationClaim::try_from("2030-01-01T00:00:00Z").map(|c| serde_json::to_value(c).unwrap()).map_err(|e| format!("{:?}", e))),
+            "NotBeforeClaim" => tv(NotBeforeClaim::try_from("2030-01-01T00:00:00Z").map(|c| serde_json::to_value(c).unwrap()).map_err(|e| format!("{:?}", e))),
+            _ => tv(IssuedAtClaim::try_from("2030-01-01T00:00:00Z").map(|c| serde_json::to_value(c).unwrap()).map_err(|e| format!("{:?}", e))),
         };
         out.evaluations += 1;
         out.distinct += 1;
